@@ -32,10 +32,11 @@ def run(ctx):
     ctx.set("spec_path_shapes", len(shapes))
     ctx.set("spec_operations", {k: sorted(v) for k, v in sorted(ops.items())})
     if ctx.thorough:
+        # layer 1 describes the fixed code (IfaceDeep=TRUE); the named regression, re-enabled, must be detected
         x = vf.tlc(ctx, "ConfStore", "ConfStore_ifaceshared.cfg", workers=2, timeout=300, allow_violation=True)
         if x.violated != "CloneIndependent":
-            raise vf.Infra("self-test: ConfStore with IfaceDeep=FALSE did not violate CloneIndependent")
-        ctx.set("selftest_design_counterexample", "IfaceDeep=FALSE violates CloneIndependent (design-only)")
+            raise vf.Infra("self-test: the named regression InterfaceSharedByClone (IfaceDeep=FALSE) is no longer detected by CloneIndependent")
+        ctx.set("selftest_regression_detected", "InterfaceSharedByClone (IfaceDeep=FALSE, code before 8aad5d9) violates CloneIndependent in the model")
     cf = vf.write_ndjson(ctx.path("tables.ndjson"), tb)
     o1 = ctx.path("mutations.ndjson")
     o2 = ctx.path("rejected.ndjson")
